@@ -33,12 +33,23 @@ def expected_double(reactions):
 
 def classify(v):
     """symbol of a stored block: 'I' | ('S', site-dimension) | ('L', svd uid) | ('M', svd uid) | None"""
+    # a block may be given extra unit axes ( m[:, :, np.newaxis] ): look at the array itself
+    seen = 0
+    while isinstance(v, Arr) and v.origin == 'getitem' and 'sel_of' in v.tags and all(s_ == ('all',) for s_ in v.tags['sel_of'][1]) and seen < 4:
+        v = v.tags['sel_of'][0]
+        seen += 1
     if not isinstance(v, Arr):
         if v == 0:
             return 'zero'
         return None
     if v.tags.get('const') == 'eye':
         return 'I'
+    if v.origin == 'tensordot' and v.tags.get('contract_axes') == ((), ()) and 'factors' in v.tags:
+        # outer product with an identity (np.multiply.outer(B, eye(r)) / np.tensordot(B, eye(r), 0)): the block-diagonal arrangement of r copies of B
+        x_, y_ = v.tags['factors']
+        for e_, b_ in ((x_, y_), (y_, x_)):
+            if isinstance(e_, Arr) and e_.tags.get('const') == 'eye' and isinstance(b_, Arr) and b_.ndim == 2:
+                return classify(b_)
     es = v.tags.get('einsum')
     if es:
         # einsum('kl,ij->kijl', eye(r), B): the block-diagonal arrangement of r copies of B (same as the loop  core[a+j, :, :, b+j] = B)
@@ -70,6 +81,10 @@ def classify(v):
 
 def opalg_of(v):
     """elementary-operator normal form of an array; an untouched np.zeros array is the zero operator (empty reaction list)"""
+    seen = 0
+    while isinstance(v, Arr) and v.origin == 'getitem' and 'sel_of' in v.tags and all(s_ == ('all',) for s_ in v.tags['sel_of'][1]) and seen < 4:
+        v = v.tags['sel_of'][0]
+        seen += 1
     if not isinstance(v, Arr):
         return None
     if 'opalg' in v.tags:
@@ -101,7 +116,7 @@ def chain_terms(cores):
     per_core = []
     for k, c in enumerate(cores):
         blks = []
-        for st in c.tags.get('stores', []):
+        for st in blocks.effective_stores(c):
             r = seg(c, st['sel'][0], c.shape[0])
             cc = seg(c, st['sel'][3], c.shape[3])
             if r is None or cc is None or st['sel'][1] != ('all',) or st['sel'][2] != ('all',):
@@ -235,7 +250,7 @@ def check(repo, tier):
                 run.add(F(entry, 'D1', 'symbolic product of the SLIM cores', f'{scen}: {msg}'))
             # D2 elementary terms
             for k, c in enumerate(res._attrs['cores']):
-                svals = [st['value'] for st in c.tags.get('stores', []) if classify(st['value']) == S(k)]
+                svals = [st['value'] for st in blocks.effective_stores(c) if classify(st['value']) == S(k)]
                 ok = len(svals) == 1 and opalg_of(svals[0]).same(expected_single(scr[k]))
                 run.oblige('D2', (entry, scen, f'single{k}'), ok, sample={'rule': 'D2', 'cell': k, 'single_cell_term': repr(opalg_of(svals[0])) if svals else None} if d == 2 and not cyclic else None)
                 if not ok:
